@@ -110,6 +110,19 @@ def correspondence(ctx):
         GC.simple_layout(s, bl, per_file=4)
         s.meta = {"boundary": True}
         scns.append(s)
+    # a block of more than 4 MB (hundreds of transactions with scripts of tens of KB): no size limit of any node applies to a parser
+    big = GC.gen_chain(r, "litecoin", 3, max_txs=1, max_io=1, segwit=False)
+    for j in range(300 if ctx.thorough() else 290):
+        big[1].txs.append(K.Tx([(GC.rb(r, 32), j, GC.rb(r, 20), 7)], [(j, GC.rb(r, 14100))]))
+    prev = big[0].hash()
+    for b in big[1:]:
+        b.prev = prev
+        b.merkle_root = None
+        prev = b.hash()
+    s = K.Scenario(coin="litecoin", callback="csvdump")
+    GC.simple_layout(s, big)
+    s.meta = {"big-block": len(big[1].enc())}
+    scns.append(s)
     bb.check(ctx, "csvdump-chains", scns, CMP, nontrivial=lambda s, m: len(m["delivered"]) > 1)
 
 
